@@ -106,7 +106,9 @@ impl JobManager {
             }
         }
 
-        let id = self.jobs.len() + 1;
+        // One more than the highest number in use: completed jobs are removed from anywhere in
+        // the table, so its length may collide with the number of a job that is still live.
+        let id = self.jobs.iter().map(|j| j.id).max().unwrap_or(0) + 1;
         job.id = id;
         job.annotation = JobAnnotation::Current;
         #[cfg(brush_verif)]
